@@ -120,6 +120,11 @@ def Coord.w2p : Coord → List Rat → List Rat
   | .identity n, y => (List.range n).map fun k => y.getD k 0
   | .affine n _ inv, y => affApply n inv y
 
+/-- Entry `[p][w]` of the linear part of the inverse transformation (FITS order). -/
+def Coord.invEnt : Coord → Nat → Nat → Rat
+  | .identity _, p, w => if p = w then 1 else 0
+  | .affine _ _ inv, p, w => ent inv p w
+
 inductive CoordErr | valueError | linAlgError | notModelled
   deriving Repr, BEq
 
@@ -386,18 +391,24 @@ end Spec
 
 namespace Impl
 
-/-- The view as the `from` components receive it in `ComponentLink.compute`
-(`join_component_view` + `split_component_view`): a 1-tuple holding one index array arrives as a
-bare array, which `_calculate` evaluates on the full grid and then indexes. -/
-def linkWorldArg (depFn : Coord → Nat → List Nat) (c : Coord) (sh : List Nat) (w : Nat) (v : View) :
-    Except ViewErr Arr :=
+/-- Values of world component `w` as the world→pixel link receives them in
+`ComponentLink.compute` (`data[join_component_view(world_cid, view)]` → `_calculate`), for a view
+that `viewPoints` accepted with points `pts`.  `join_component_view` + `split_component_view`
+turn a 1-tuple holding one index array into a bare array, which `_calculate` evaluates on the full
+grid and then indexes. -/
+def linkWorldArg (depFn : Coord → Nat → List Nat) (c : Coord) (sh : List Nat) (w : Nat) (v : View)
+    (pts : List (List Nat)) : List Rat :=
   match v with
-  | .arrays s [a] =>
-    if sh.length ≠ 1 ∨ a.length ≠ prod s ∨ a.any (fun k => k ≥ sh.headD 0) then .error .domain
-    else
-      let full := gridWith depFn c w (fullSels sh)
-      .ok ⟨s, a.map fun k => full.getD k 0⟩
-  | v => worldViewWith depFn c sh w v
+  | .all => gridWith depFn c w (fullSels sh)
+  | .basic items =>
+    match selsOf sh items with
+    | .ok sels => gridWith depFn c w sels
+    | .error _ => []
+  | .arrays _ [a] =>
+    let full := gridWith depFn c w (fullSels sh)
+    a.map fun k => full.getD k 0
+  | .arrays _ _ => arraysPath c w pts
+  | .mask m => maskFilter (gridWith depFn c w (fullSels sh)) m
 
 /-- `CoordinateComponentLink.compute` for the pixel→world link of world axis `i`: arguments are
 the pixel components in `from_needed`; the others default to `0`; `pixel2world_single_axis`
@@ -423,7 +434,7 @@ def linkW2PWith (depFn : Coord → Nat → List Nat) (wdep : Coord → Nat → N
   let n := c.n
   let needed := depFn c i
   -- world component values under the view, one list per numpy world axis
-  let ws ← (List.range n).mapM fun w => (linkWorldArg depFn c sh w v).map (·.data)
+  let ws := (List.range n).map fun w => linkWorldArg depFn c sh w v pts
   let flagged := wdep c (n - 1 - i)
   pure ⟨shape, (List.range pts.length).map fun r =>
     let y : List Rat := (List.range n).map fun w =>
@@ -458,8 +469,6 @@ def Coord.wf : Coord → Bool
 /-- Non-zero pattern of row `p` of the inverse is inside the flags (what the world→pixel
 shortcut needs). -/
 def invRowSubset (c : Coord) (p : Nat) (flags : Nat → Bool) : Bool :=
-  match c with
-  | .identity n => (List.range n).all fun w => !(w == p) || flags w
-  | .affine n _ inv => (List.range n).all fun w => ent inv p w == 0 || flags w
+  (List.range c.n).all fun w => c.invEnt p w == 0 || flags w
 
 end GlueVerif.Coords
